@@ -1,5 +1,5 @@
 //! C11 -- semantic hashing is denotational; hash-identified builders stay correct.
-use crate::bddhist::{Arg, CacheKind, HistCfg, Op, Robdd};
+use crate::bddhist::{CacheKind, HistCfg, Op, Robdd};
 use crate::ctx::Ctx;
 use crate::exact::*;
 use crate::gen::*;
